@@ -13,6 +13,23 @@ from sdc11073 import xml_utils
 from sdc11073.namespaces import QN_TYPE, NamespaceHelper
 
 
+def _copy_value(value: Any) -> Any:
+    """Return an independent copy of a property value (recursively for lists and nested data types).
+
+    Immutable values (str, numbers, enums, QNames, ...) and lxml elements (extensions) are returned as they are.
+    """
+    if isinstance(value, list):
+        return value.__class__(_copy_value(item) for item in value)
+    if hasattr(value, 'sorted_container_properties'):
+        copied = copy.copy(value)
+        for _, prop in value.sorted_container_properties():
+            actual_value = prop.get_actual_value(value)
+            if actual_value is not None:
+                prop.__set__(copied, _copy_value(actual_value))
+        return copied
+    return value
+
+
 class ContainerBase:
     """Common base class for descriptors and states."""
 
@@ -97,6 +114,11 @@ class ContainerBase:
     def mk_copy(self, copy_node: bool = False) -> ContainerBase:
         """Make a copy of self."""
         copied = copy.copy(self)
+        # nested values must not be shared with the copy, otherwise changing the copy changes the original
+        for _, prop in self.sorted_container_properties():
+            actual_value = prop.get_actual_value(self)
+            if actual_value is not None:
+                prop.__set__(copied, _copy_value(actual_value))
         if copy_node and self.node is not None:
             copied.node = xml_utils.copy_element(self.node)
         return copied
